@@ -36,3 +36,8 @@ def run(project, rep):
     Q.q_r6_serialize(project, rep)
     W.w_r6_html_names(schema, rep)
     W.w_r7_indent(project, rep)
+    T.t_r7(project, rep)
+    from .. import rules_header as H
+    rep.rule("W-R8", "the header written for a version is of the kind the reader expects and the body is decoded with the codec the header declares (B-R1, B-R3, H-R2, H-R3)")
+    H.b_rules(project, rep)
+    H.h_rules(project, rep)
